@@ -12,6 +12,7 @@ import (
 
 	"github.com/osteele/liquid/expressions"
 	"github.com/osteele/liquid/render"
+	"github.com/osteele/liquid/values"
 )
 
 // An IterationKeyedMap is a map that yields its keys, instead of (key, value) pairs, when iterated.
@@ -156,7 +157,7 @@ func makeLoopDecorator(loop loopRenderer, ctx render.Context) (loopDecorator, er
 			if err != nil {
 				return nil, err
 			}
-			cols, ok := val.(int)
+			cols, ok := asInt(val)
 			if !ok {
 				return nil, ctx.Errorf("loop cols must be an integer")
 			}
@@ -216,7 +217,7 @@ func applyLoopModifiers(loop expressions.Loop, ctx render.Context, iter iterable
 		if err != nil {
 			return nil, err
 		}
-		offset, ok := val.(int)
+		offset, ok := asInt(val)
 		if !ok {
 			return nil, ctx.Errorf("loop offset must be an integer")
 		}
@@ -230,7 +231,7 @@ func applyLoopModifiers(loop expressions.Loop, ctx render.Context, iter iterable
 		if err != nil {
 			return nil, err
 		}
-		limit, ok := val.(int)
+		limit, ok := asInt(val)
 		if !ok {
 			return nil, ctx.Errorf("loop limit must be an integer")
 		}
@@ -317,6 +318,26 @@ type reverseWrapper struct {
 
 func (w reverseWrapper) Len() int        { return w.i.Len() }
 func (w reverseWrapper) Index(i int) any { return w.i.Index(w.i.Len() - 1 - i) }
+
+// asInt accepts an integer of any width (and a Drop yielding one) as a loop modifier.
+func asInt(val any) (int, bool) {
+	val = values.ToLiquid(val)
+	if n, ok := val.(int); ok {
+		return n, true
+	}
+	rv := reflect.ValueOf(val)
+	switch rv.Kind() {
+	case reflect.Int8, reflect.Int16, reflect.Int32, reflect.Int64:
+		return int(rv.Int()), true
+	case reflect.Uint, reflect.Uint8, reflect.Uint16, reflect.Uint32, reflect.Uint64:
+		if rv.Uint() > math.MaxInt32 {
+			return math.MaxInt32, true
+		}
+		return int(rv.Uint()), true
+	default:
+		return 0, false
+	}
+}
 
 func intMax(a, b int) int {
 	if a > b {
